@@ -43,6 +43,10 @@ CLAIMED = {
          "Structural necessary conditions: frame decoding and acknowledgement processing are in bounds for every frame; no reachable abort from the receive path and the decoders except tabled assertions; the muxer's receive loop is left only on the stopped state or a transport read error (decode errors filtered); no allocation sized by a peer-supplied length field above one datagram.",
          "As C10. Exempted with checked side conditions: fromInitiateBytes (every call site passes frame.toBytes() of a decoded frame), Reliable.send retransmission loops (bounded by framesToSend / len under r.l). 'Can still be stopped cleanly' is C16; unbounded queues over histories are not decided.",
          "DESIGN.md §3 C11"),
+ "C18": ("range analysis of narrowing conversions on the linear-form engine (role query: 8/16-bit conversions of values that derive from len() by dataflow, incl. the byte(x>>8), byte(x) pair), facts taken at the conversion",
+         "Structural necessary condition of the 'rejected when encoding instead of truncated or mis-framed' clause: every length that is narrowed to its wire width is provably within that width at the conversion. (Layout agreement of sibling codecs and prefix/payload consumption are added as R2/R3 when implemented; until then they are not claimed.)",
+         "Round-trip equality for all values is a functional statement and is not decided. 32-bit prefixes are outside the 8/16-bit rule.",
+         "DESIGN.md §3 C18"),
 }
 
 NOT_APPLICABLE = {
